@@ -32,7 +32,7 @@ LEVEL_NOTE = ('Trusted: the harness oracle (conforms_state/conforms_observation)
               'preconditions (Floor declared, unique object for distance rewards, beacon present for reach_exit_memory). '
               'Colours of states are outside the statement and not probed.')
 SHARDS = {'quick': 4, 'thorough': 16}
-BUDGET_S = {'quick': 60, 'thorough': 600}
+BUDGET_S = {'quick': 300, 'thorough': 2400}
 RULE = (
     'case = (composition or shipped config, member state, action) monitored through the real '
     'GridWorld.functional_step/functional_observation with the debug flag on and off; states of random '
@@ -401,7 +401,8 @@ def drive_shipped(ctx, name, data, seed, policy_name, steps, debug):
     env.set_seed(seed)
     decl = Decl(env)
     prng = gen.rng_for('C01policy', name, seed, policy_name)
-    policy = workloads.POLICIES[policy_name]
+    policy = (workloads.GoalMixPolicy(max_nodes=1500, ctx=ctx) if policy_name == 'goal'
+              else workloads.POLICIES[policy_name])
     ok, state = call_real(env.functional_reset)
     if not ok:
         ctx.violation('reset_total', 'reset_raises.' + exc_site(state), f'{name}: reset raised {describe_exc(state)}',
@@ -486,7 +487,10 @@ def run(ctx):
         job = 0
         for name, path, data in configs:
             for s in range(seeds):
-                for pol in workloads.POLICIES:
+                for pol in list(workloads.POLICIES) + ['goal']:
+                    if pol == 'goal' and not any(k in name for k in ('empty', 'crossing.5x5', 'keydoor.5x5', 'keydoor.7x7',
+                                                                      'four_rooms.7x7', 'memory.5x5', 'teleport.5x5')):
+                        continue
                     job += 1
                     if not ctx.mine(job):
                         continue
